@@ -279,6 +279,64 @@ func (c19) Run(c *engine.Case) *engine.Result {
 			break
 		}
 	}
+	// (5) the same record, cleared, serves a second run of the same closure: same entries
+	{
+		sig := func(es []debug.VerifEntry) string {
+			var xs []string
+			for _, en := range es {
+				xs = append(xs, fmt.Sprintf("%d:%s", en.Col, en.Val))
+			}
+			return strings.Join(xs, " ")
+		}
+		first := sig(entries)
+		for round := 2; round <= 3; round++ {
+			rcd.Clear()
+			o2 := &real.Obs{}
+			o2.Invoke(cb, venv, nil)
+			res.Execs++
+			if again := sig(rcd.VerifEntries()); again != first {
+				bad("record-depends-on-history", "%s: run %d with the cleared record gives [%s], the first run gave [%s]", src, round, again, first)
+				break
+			}
+		}
+	}
+	// (6) white space before the program shifts every column by its width, nothing else
+	{
+		pad := "  \t "
+		src2 := pad + src
+		var cb2 yae.Callable
+		var err2 error
+		func() {
+			defer func() {
+				if r := recover(); r != nil {
+					err2 = fmt.Errorf("panic: %v", r)
+				}
+			}()
+			cb2, err2 = yae.NewExpr().UseCompiler(yclosure.DebugCompile).Compile(src2, carg)
+		}()
+		res.Execs++
+		if err2 != nil {
+			bad("debug-compile-failed", "%q (leading white space): %v", src2, err2)
+		} else {
+			r2 := debug.NewRecord()
+			venv.Dgb = r2
+			o3 := &real.Obs{}
+			o3.Invoke(cb2, venv, nil)
+			venv.Dgb = rcd
+			res.Execs++
+			e2 := r2.VerifEntries()
+			if len(e2) != len(entries) {
+				bad("record-wrong-entries", "%q: %d entries, without the leading white space %d", src2, len(e2), len(entries))
+			} else {
+				for i := range e2 {
+					if e2[i].Col != entries[i].Col+len([]rune(pad)) {
+						bad("record-wrong-column", "%q: entry %d (%s) is attributed to column %d; without the %d leading white-space runes it sits at column %d", src2, i, e2[i].Val, e2[i].Col, len([]rune(pad)), entries[i].Col)
+						break
+					}
+				}
+			}
+		}
+	}
 	// (4) yae.Debug itself: same value, same report
 	if d.Env.Rep != "raw" {
 		hv, _ := d.Env.Host()
